@@ -118,10 +118,17 @@ MonStep(mm, e) ==
       anon1 == SelectSeq(mm.anon, LAMBDA x : t < x.t + 3 * TOms)
                \o SetToSeq({[sock |-> e.net[i].to, t |-> t, i |-> i] : i \in {i \in NewNet(e) : e.net[i].kind = "rand" /\ Kind(e) # "AppRequest"}})
       \* challenges of the node: emitted now; answered (accepted) / rejected (ambiguous, timer possibly re-armed) / expired
-      ways1 == mm.ways \o SetToSeq({[id |-> e.net[i].id, sock |-> e.net[i].to, idn |-> e.net[i].idn, t |-> t, arm |-> t, amb |-> FALSE] : i \in {i \in NewNet(e) : e.net[i].kind = "way"}})
+      ways1 == mm.ways \o SetToSeq({[id |-> e.net[i].id, sock |-> e.net[i].to, idn |-> e.net[i].idn, t |-> t, arm |-> t, amb |-> FALSE, dip |-> FALSE] : i \in {i \in NewNet(e) : e.net[i].kind = "way"}})
       hsIn == Kind(e) \in {"PeerHandshake", "Replay", "Mutate"} /\ ~Unres(e)
-      ways2 == [i \in 1..Len(ways1) |->
+      ways2a == [i \in 1..Len(ways1) |->
                   IF hsIn /\ In(e).from = ways1[i].sock /\ ways1[i].t < t THEN [ways1[i] EXCEPT !.amb = TRUE, !.arm = t] ELSE ways1[i]]
+      \* while it is uncertain whether a challenge is still outstanding, remember whether its exemption was seen missing
+      sureAt(s) == Cardinality({i \in 1..Len(sub3) : sub3[i].sock = s /\ sub3[i].sent /\ sub3[i].term = 0})
+                   + Cardinality({i \in 1..Len(ints3) : ints3[i].sock = s /\ ~ints3[i].maybe})
+                   + Cardinality({i \in 1..Len(ways2a) : ways2a[i].sock = s /\ ~ways2a[i].amb})
+      ways2 == [i \in 1..Len(ways2a) |->
+                  IF ways2a[i].amb /\ ~(hsIn /\ Accepted(e) /\ In(e).from = ways2a[i].sock) /\ ExpOf(e, ways2a[i].sock) <= sureAt(ways2a[i].sock)
+                  THEN [ways2a[i] EXCEPT !.dip = TRUE] ELSE ways2a[i]]
       ways3 == SelectSeq(ways2, LAMBDA w : ~(hsIn /\ In(e).from = w.sock /\ Accepted(e) /\ w.t < t) /\ t < w.arm + TOms)
       inj1 == IF Kind(e) \in {"PeerRandom", "PeerWhoAreYou", "PeerHandshake", "PeerMessage", "Replay", "Reflect", "Mutate"} /\ ~Unres(e)
               THEN Append(mm.injs, [k |-> Kind(e), party |-> Get(In(e), "party", "none"), claim |-> Get(In(e), "claim", "none"), from |-> In(e).from,
@@ -175,6 +182,10 @@ MonViol(mm, m2, e) ==
             IN ExpOf(e, s) < sure \/ ExpOf(e, s) > sure + maybe
         THEN {"C13.Count"} ELSE {})
   \cup (IF Kind(e) = "Quiesce" /\ DOMAIN e.exp # {} THEN {"C13.LeftOver"} ELSE {})
+  \* a handshake accepted now proves its challenge was outstanding all along: its exemption must not have been missing meanwhile
+  \cup (IF Kind(e) = "PeerHandshake" /\ ~Unres(e) /\ (Evs(e, "Established") # {} \/ Evs(e, "Unverifiable") # {})
+           /\ \E i \in 1..Len(mm.ways) : mm.ways[i].sock = In(e).from /\ mm.ways[i].idn = In(e).chal /\ mm.ways[i].dip
+        THEN {"C13.ReleasedEarly"} ELSE {})
   \* ---------------- C01: attribution to X needs X's key (or the node's own initiative towards X at that socket)
   \cup (IF \E j \in 1..Len(e.out) : e.out[j].e \in {"Established", "Request", "Response", "Unverifiable"} /\ e.out[j].id # "A"
                                        /\ <<e.out[j].id, e.out[j].addr>> \notin m2.proved
@@ -183,7 +194,8 @@ MonViol(mm, m2, e) ==
   \* ---------------- C02: what is delivered as coming from P is a plaintext P encrypted
   \cup (IF \E j \in 1..Len(e.out) : e.out[j].e \in {"Request", "Response"} /\ ~\E x \in m2.sent : x[2] = e.out[j].id /\ x[3] = e.out[j].plain
         THEN {"C02.Delivered"} ELSE {})
-  \cup (IF Kind(e) = "Mutate" /\ ~Unres(e) /\ In(e).changed /\ (Evs(e, "Request") # {} \/ Evs(e, "Response") # {} \/ Evs(e, "Established") # {})
+  \cup (IF (Kind(e) = "Mutate" \/ "mut" \in DOMAIN In(e)) /\ ~Unres(e) /\ Get(In(e), "changed", FALSE)
+           /\ (Evs(e, "Request") # {} \/ Evs(e, "Response") # {})     \* (a handshake whose message part was tampered with still proves the peer: Established is not a delivery)
         THEN {"C02.MutantAccepted"} ELSE {})
   \* ---------------- C03
   \cup (IF Kind(e) \in {"Replay"} /\ ~Unres(e) /\ In(e).idx \in 1..Len(mm.injs) /\ mm.injs[In(e).idx].k = "PeerHandshake"
